@@ -33,6 +33,7 @@ def classify(ctx, w: World, threads: bool = True):
     caches: Dict[Tuple[str, str], Tuple[CacheInfo, List[SharedWrite]]] = {}
     counters: List[Tuple[SharedWrite, str]] = []
     bad: List[SharedWrite] = []
+    helper_fills = w.helper_fills = []   # keyed fills of a shared container done by a helper that gets the container as a parameter
     tallies = w.global_tallies = []       # module-level dict of counters that API-reachable code only increments
     lazies = w.lazy_constants = []        # (SharedWrite, descriptions): module-level values built once, independent of any argument
     for sw in writes:
@@ -57,6 +58,12 @@ def classify(ctx, w: World, threads: bool = True):
             sw.origin_line, sw.origin_text = line, text
             sw.kinds = {f"{kind} after the entry was published at line {pub}", "del"}
             bad.append(sw)
+            continue
+        if sw.field and kinds <= CACHE_KINDS and sw.origin_func in w.model.funcs and not w.model.funcs[sw.origin_func].cls and sw.chain \
+                and _fills_a_parameter(w.model, sw):
+            # the pad / look / compute / store sequence lives in a helper that receives the container as an argument: the idiom is
+            # the verified one only if key and value are right at every call site, which is not established here
+            helper_fills.append(sw)
             continue
         if sw.field and kinds <= CACHE_KINDS and sw.origin_func in w.model.funcs and w.model.funcs[sw.origin_func].cls:
             key = (sw.origin_func, sw.field)
@@ -89,6 +96,20 @@ def classify(ctx, w: World, threads: bool = True):
             continue
         bad.append(sw)
     return caches, counters, bad
+
+
+def _fills_a_parameter(model, sw) -> bool:
+    """every writing statement of this group stores into a PARAMETER of the helper (cache.append(..), cache[index] = ..)"""
+    fi = model.funcs.get(sw.origin_func)
+    if fi is None:
+        return False
+    params = {a.arg for a in fi.node.args.args + fi.node.args.kwonlyargs}
+    import re as _re
+    for _k, _l, text in sw.records:
+        m = _re.match(r"\s*(\w+)\s*(\[|\.)", text)
+        if not m or m.group(1) not in params:
+            return False
+    return bool(sw.records)
 
 
 def _passed_on(model, fq: str, node: ast.AST) -> bool:
@@ -236,6 +257,10 @@ def run(ctx):
     for sw, descs in getattr(w, "lazy_constants", []):
         ctx.ok("C16.2", f"module-level value {sw.name} is built on first use and published by one assignment", f"{w.rel_of(sw.origin_func)}:{sw.origin_line}",
                "; ".join(descs) + ": threads that race on the first use store equal values, a reader sees None or the complete object")
+    for sw in getattr(w, "helper_fills", []):
+        ctx.unk("C16.2", f"shared container {sw.name} is filled through the helper {sw.origin_func}", f"{w.rel_of(sw.origin_func)}:{sw.origin_line}",
+                f"`{sw.origin_text}` ({', '.join(sorted(sw.kinds))}): the container comes in as a parameter; whether every caller passes a key that "
+                f"determines the value (so that racing fills store equal values) is not decided")
     for sw in getattr(w, "global_tallies", []):
         ctx.ok("C16.3", f"module-level table of counters {sw.name} is write-only", f"{w.rel_of(sw.origin_func)}:{sw.origin_line}",
                "code reachable from the API only increments its entries: a lost update cannot change a result")
